@@ -45,12 +45,15 @@ func (d HypergeometicDist) pmf(k int) float64 {
 // contains exactly d.K successes.
 func (d HypergeometicDist) CDF(k float64) float64 {
 	// Based on Klotz, A Computational Approach to Statistics.
-	ki := int(math.Floor(k))
 	l, h := d.bounds()
+	if k >= float64(h) {
+		// Decide this before converting: a k beyond the
+		// range of int does not convert meaningfully.
+		return 1
+	}
+	ki := int(math.Floor(k))
 	if ki < l {
 		return 0
-	} else if ki >= h {
-		return 1
 	}
 	// Use symmetry to compute the smaller sum.
 	flip := false
